@@ -36,7 +36,7 @@ class C12(PropBase):
         return {"op": "init", "sessions": [{"name": "S", "role": role}, {"name": "T", "role": role}],
                 "illegal_p": rng.choice([0.0, 0.1, 0.3]), "chunk": rng.choice(["mixed", "mixed", "byte", "whole"]),
                 "drain_bias": rng.choice(["mixed", "mixed", "tiny", "lazy"]), "big": rng.choice([0.05, 0.2]),
-                "bad_text": rng.choice([0.0, 0.0, 0.04])}
+                "bad_text": rng.choice([0.0, 0.0, 0.04]), "style": policy.wire_style(rng)}
 
     def make(self, init):
         st = St(__import__("simldap.world", fromlist=["World"]).World(init))
@@ -176,7 +176,8 @@ class C12(PropBase):
             if evs["ok"] != evt["ok"] or rs != rt or evs["st_after"] != evt["st_after"]:
                 raise Violation(P, "state-depends-on-drain", "receive: subject ok=%s state=%s, twin ok=%s state=%s, results %s" % (
                     evs["ok"], evs["st_after"], evt["ok"], evt["st_after"], "equal" if rs == rt else "differ"))
-            if e:
+            if e and evt["ok"]:
+                # (a receive that fails may legitimately queue a notice; one that returns normally is not a send call)
                 raise Violation(P, "receive-emitted", "receive() appended %d bytes to the outgoing stream" % len(e))
             self._conserve(st, "after receive")
         elif k == "drain":
